@@ -157,9 +157,33 @@ impl Prop for C08Prop {
             let forms = root_forms();
             let (name, arity) = forms[c.below(forms.len() as u32) as usize];
             let d = c.below(3);
-            let a = gen_exact(c, d, true);
+            const REALS: [&str; 9] = ["2", "3", "0.5", "1.5", "0.25", "1", "4", "2.5", "0.75"];
+            let real_lit = |c: &mut dyn Choices| {
+                let l = E::Lit(REALS[c.below(REALS.len() as u32) as usize].to_string());
+                if c.below(3) == 0 {
+                    E::Group(Br::Round, Box::new(E::Neg(Box::new(l))))
+                } else {
+                    l
+                }
+            };
+            let mut a = gen_exact(c, d, true);
+            if c.below(2) == 0 {
+                // an approximate operation underneath (towers of powers, a root of a power, ln of exp ...): checked one step at a time
+                let (n2, ar2) = forms[c.below(forms.len() as u32) as usize];
+                let second = if c.below(2) == 0 { real_lit(c) } else { gen_exact(c, 1, false) };
+                a = match (n2, ar2) {
+                    ("/", _) => gen::mk_bin(BinOp::Div, a, second),
+                    ("^", _) => gen::mk_bin(BinOp::Pow, a, second),
+                    ("°", _) => gen::mk_deg(a),
+                    ("rad", _) => gen::mk_rad(a),
+                    ("sup2", _) => gen::mk_sup(a, "2"),
+                    ("sup3", _) => gen::mk_sup(a, "3"),
+                    (n, 2) => E::Call(n, vec![a, second]),
+                    (n, _) => E::Call(n, vec![a]),
+                };
+            }
             let d2 = c.below(2);
-            let b = gen_exact(c, d2, false);
+            let b = if c.below(3) == 0 { real_lit(c) } else { gen_exact(c, d2, false) };
             match (name, arity) {
                 ("/", _) => gen::mk_bin(BinOp::Div, a, b),
                 ("^", _) => gen::mk_bin(BinOp::Pow, a, b),
@@ -276,24 +300,85 @@ impl Prop for C08Prop {
                 return Ok(());
             }
         };
+        // operands: exact where the reference can compute them exactly, otherwise the library's own value of that
+        // subexpression (one-step oracle: the root operation must be the principal-branch function of its operands)
         let mut zs: Vec<C> = Vec::new();
+        let mut one_step = false;
         for a in &args {
             match cpxr::eval(a, ph) {
                 RC::Exact(z) => zs.push(z),
-                _ => {
-                    sc.exclude("approximate node below the root (no claim at this tolerance)");
-                    return Ok(());
-                }
+                _ => match eval_normal(sc, Ev::Cpx, &grammar::render(a), &case.ph) {
+                    Some(Outcome::Ok(Val::C(x, y))) => {
+                        // the property quantifies over generic operands: both parts non-zero, moderate magnitude
+                        let m = cpxr::modulus((x, y));
+                        if !(m >= 1e-2 && m <= 1e2 && x.abs() >= 1e-3 * m && y.abs() >= 1e-3 * m) {
+                            sc.exclude("library-valued operand is not generic (tiny, huge or near an axis)");
+                            return Ok(());
+                        }
+                        zs.push((x, y));
+                        one_step = true;
+                    }
+                    _ => {
+                        sc.exclude("operand has no value");
+                        return Ok(());
+                    }
+                },
             }
         }
         if zs.iter().any(|z| !(z.0.is_finite() && z.1.is_finite())) {
             sc.exclude("non-finite operand");
             return Ok(());
         }
+        // operand variants: exactly on a cut the two one-sided limits are both accepted (the sign of a zero part decides)
+        let mut variants: Vec<Vec<C>> = vec![zs.clone()];
         if near_cut(&canon, zs[0], zs.get(1).copied()) {
-            sc.exclude("within 1e-3 of a branch cut / zero modulus");
-            return Ok(());
+            let on_axis = |z: C| z.1 == 0.0 && z.0 < 0.0;
+            let log_like = matches!(canon.as_str(), "ln" | "lb" | "sqrt" | "log" | "pow" | "^" | "root" | "sup");
+            let small = zs.iter().any(|z| cpxr::modulus(*z) < 1e-6) || (canon == "log" && cpxr::modulus(cpxr::sub(zs[1], (1.0, 0.0))) < 1e-3);
+            let all_on_or_away = zs.iter().enumerate().all(|(k, z)| {
+                let relevant = match canon.as_str() {
+                    "root" => k == 1,
+                    "log" => true,
+                    _ => k == 0,
+                };
+                !relevant || on_axis(*z) || !(z.0 <= 0.0 && z.1.abs() < 1e-3 * cpxr::modulus(*z).max(1e-300))
+            });
+            if log_like && !small && all_on_or_away {
+                variants.clear();
+                let opts: Vec<Vec<C>> = zs.iter().map(|z| if on_axis(*z) { vec![(z.0, 0.0), (z.0, -0.0)] } else { vec![*z] }).collect();
+                let mut acc: Vec<Vec<C>> = vec![vec![]];
+                for o in opts {
+                    let mut next = Vec::new();
+                    for pre in &acc {
+                        for x in &o {
+                            let mut v = pre.clone();
+                            v.push(*x);
+                            next.push(v);
+                        }
+                    }
+                    acc = next;
+                }
+                variants = acc;
+                sc.class("operand exactly on a branch cut: either one-sided limit accepted");
+            } else {
+                sc.exclude("within 1e-3 of a branch cut / zero modulus");
+                return Ok(());
+            }
         }
+        if one_step {
+            sc.class("one-step oracle (operands evaluated by the library)");
+        }
+        let with_operands = |vals: &[C]| -> E {
+            let l = |k: usize| Box::new(E::Lit(format!("cpx:{:x}:{:x}", vals[k].0.to_bits(), vals[k].1.to_bits())));
+            match &e {
+                E::Bin(op, _, _) => E::Bin(*op, l(0), l(1)),
+                E::Sup(_, d) => E::Sup(l(0), d.clone()),
+                E::Deg(_) => E::Deg(l(0)),
+                E::Rad(_) => E::Rad(l(0)),
+                E::Call(n, a) => E::Call(n, (0..a.len()).map(|k| *l(k)).collect()),
+                other => other.clone(),
+            }
+        };
         let spelling = match &e {
             E::Call(n, _) => n.to_string(),
             _ => canon.clone(),
@@ -325,20 +410,24 @@ impl Prop for C08Prop {
                 return fail("inverse-identity", format!("w in the principal range with {}(w) = {:?}+{:?}i within 1e-9", &canon[1..], z.0, z.1));
             }
         } else {
-            let want = match cpxr::eval(&e, ph) {
-                RC::Approx(w) => w,
-                _ => {
-                    sc.exclude("no reference formula");
-                    return Ok(());
+            let rel = if canon == "/" || canon == "abs" { 1e-12 } else { 1e-9 };
+            let mut wants: Vec<C> = Vec::new();
+            for v in &variants {
+                match cpxr::eval(&with_operands(v), ph) {
+                    RC::Approx(w) | RC::Exact(w) => wants.push(w),
+                    _ => {
+                        sc.exclude("no reference formula");
+                        return Ok(());
+                    }
                 }
-            };
-            if !(want.0.is_finite() && want.1.is_finite()) {
+            }
+            if wants.iter().any(|w| !(w.0.is_finite() && w.1.is_finite())) {
                 sc.exclude("reference value not finite");
                 return Ok(());
             }
-            let rel = if canon == "/" || canon == "abs" { 1e-12 } else { 1e-9 };
-            if !cpxr::close(got, want, rel) {
-                return fail("value", format!("{:?}+{:?}i within {:e} relative", want.0, want.1, rel));
+            if !wants.iter().any(|w| cpxr::close(got, *w, rel)) {
+                let w = wants[0];
+                return fail("value", format!("{:?}+{:?}i within {:e} relative{} (operands {:?})", w.0, w.1, rel, if wants.len() > 1 { " or the limit from the other side of the cut" } else { "" }, zs));
             }
         }
         sc.class(&format!("fn:{}", spelling));
